@@ -327,6 +327,16 @@ def _worker(args):
     modname, tier, seed, n, seconds, known_open, shrink_seconds, repo = args
     os.environ["VERIF_REPO"] = repo
     try:
+        # a worker must not outlive its check: if the parent is killed (a driver's timeout, an interrupted sweep) while a case
+        # loops inside the code under test, the kernel ends the worker too (PR_SET_PDEATHSIG = 1)
+        import ctypes
+
+        ctypes.CDLL("libc.so.6", use_errno=True).prctl(1, int(signal.SIGKILL))
+        if os.getppid() == 1:
+            os._exit(0)
+    except Exception:
+        pass
+    try:
         from . import env
 
         env.prepare()
